@@ -101,6 +101,7 @@ class Interp:
         self.ext_returns = []
         V.OBJREG.clear()
         self.creating_new = 0
+        self.iter_old_heap = None
         self.trace_base = 0        # clauses of a callee evaluated at a call site see only the events it emits
         self.callsites = {}        # (callee, line) -> [reached, normal return feasible]
         self.dmap_keys = {}        # Ref -> key terms used on this path (for model concretisation)
@@ -451,24 +452,21 @@ class Interp:
             return VBool(z3.Xor(a.t, b.t))
         if opn in ("BitAnd", "BitOr") and a.tag == "bool" and b.tag == "bool":
             return VBool(z3.And(a.t, b.t) if opn == "BitAnd" else z3.Or(a.t, b.t))
-        W = 72
         if opn == "LShift" and z3.is_int_value(tb):
             return VInt(ta * (2 ** tb.as_long()))
         if opn == "RShift" and z3.is_int_value(tb):
             return VInt(ta / (2 ** tb.as_long()))
-        x, y = z3.Int2BV(ta, W), z3.Int2BV(tb, W)
-        self.note("bit operation %s encoded over %d-bit vectors (operands assumed within range)" % (opn, W))
-        if opn == "BitXor":
-            r = x ^ y
-        elif opn == "BitAnd":
-            r = x & y
-        elif opn == "BitOr":
-            r = x | y
-        elif opn == "LShift":
-            r = x << y
-        else:
-            r = z3.LShR(x, y)
-        return VInt(z3.BV2Int(r, True))
+        sa, sb = z3.simplify(ta), z3.simplify(tb)
+        if z3.is_int_value(sa) and z3.is_int_value(sb):
+            x, y = sa.as_long(), sb.as_long()
+            r = {"BitXor": x ^ y, "BitAnd": x & y, "BitOr": x | y, "LShift": x << y if y >= 0 else 0,
+                 "RShift": x >> y if y >= 0 else 0}[opn]
+            return VInt(r)
+        # symbolic operands: Python's integer bit operators as uninterpreted functions (no bit-level facts are
+        # assumed; the same function symbol is used by code and clauses)
+        self.note("integer bit operator %s on symbolic operands is an uninterpreted function" % opn)
+        f = z3.Function("py_" + opn.lower(), z3.IntSort(), z3.IntSort(), z3.IntSort())
+        return VInt(f(ta, tb))
 
     def cur_trace(self):
         return self.trace[self.trace_base:]
@@ -685,6 +683,10 @@ class Interp:
                 return z3.BoolVal(False)
             self.dmap_keys.setdefault(cont.ref, []).append(kt)
             return z3.Select(c.dom, kt)
+        if cont.tag == "obj" and cont.ref.kind != "rec":
+            fc = self.cset.lookup_method(cont.ref.cls, "__contains__")
+            if fc is not None:
+                return self.truth(self.call_contract(fc, cont, [item], {}, None))
         if cont.tag == "obj" and cont.ref.kind == "rec":
             item = self.force(item)
             if item.tag == "str" and z3.is_string_value(item.t):
@@ -743,6 +745,8 @@ class Interp:
             return VFn("builtin", name=name)
         if name in ("True", "False", "None"):
             return self.const({"True": True, "False": False, "None": None}[name])
+        if name == "__debug__":
+            return VBool(True)
         # module-level literal constant of the file the function lives in (read from the real source)
         fc0 = self.frames[-1].fc if self.frames else None
         if fc0 is not None and fc0.file and name.isupper():
@@ -1121,7 +1125,7 @@ class Interp:
                 self.raise_("TypeError")
             n_ = z3.Length(c.term)
             t2 = z3.If(t < 0, t + n_, t)
-            if self.ctx.branch(z3.Or(t2 < 0, t2 >= n_)):
+            if self.err_branch(z3.Or(t2 < 0, t2 >= n_)):
                 self.raise_("IndexError")
             return from_term(c.term[t2], c.elem)
         if base.tag == "dict":
@@ -1142,7 +1146,7 @@ class Interp:
                 return v
             kt = to_term(idx, c.kshape)
             self.dmap_keys.setdefault(base.ref, []).append(kt)
-            if self.ctx.branch(z3.Not(z3.Select(c.dom, kt))):
+            if self.err_branch(z3.Not(z3.Select(c.dom, kt))):
                 self.raise_("KeyError", idx)
             return from_term(z3.Select(c.arr, kt), c.vshape)
         if base.tag == "str":
@@ -1151,7 +1155,7 @@ class Interp:
                 self.raise_("TypeError")
             n_ = z3.Length(base.t)
             t2 = z3.If(t < 0, t + n_, t)
-            if self.ctx.branch(z3.Or(t2 < 0, t2 >= n_)):
+            if self.err_branch(z3.Or(t2 < 0, t2 >= n_)):
                 self.raise_("IndexError")
             if base.is_bytes:
                 return VInt(z3.StrToCode(z3.SubString(base.t, t2, 1)))
@@ -1163,6 +1167,14 @@ class Interp:
             if fc is not None:
                 return self.call_contract(fc, base, [idx], {}, None)
         raise Unsupported("subscript on %r" % base)
+
+    def err_branch(self, cond):
+        """branch into an error case; inside a clause evaluated under hypotheses the error case is not taken when
+        the hypotheses exclude it"""
+        if self.spec_depth and self.hyp:
+            if self.ctx.solver.check(*(self.hyp + [cond])) == z3.unsat:
+                return False
+        return self.ctx.branch(cond)
 
     def conc_index(self, idx, n):
         """symbolic index into a concrete-length list: case split over the positions (forks)"""
@@ -1216,7 +1228,16 @@ class Interp:
         return self.new_list(self._comp(n))
 
     def e_GeneratorExp(self, n):
-        return self.new_list(self._comp(n))
+        # lazy: consumed only if someone iterates it (a generator that only feeds a log/error message is not run)
+        return VFn("lazygen", node=n, frame_env=self.env)
+
+    def run_lazygen(self, g):
+        saved = self.frames[-1].env
+        self.frames[-1].env = dict(g.frame_env)
+        try:
+            return self._comp(g.node)
+        finally:
+            self.frames[-1].env = saved
 
     def e_SetComp(self, n):
         return self.new_set(self._comp(n))
@@ -1264,6 +1285,8 @@ class Interp:
     def iter_conc(self, v):
         """concrete-length iteration: returns python list of Vals"""
         v = self.force(v)
+        if v.tag == "fn" and v.kind == "lazygen":
+            return self.run_lazygen(v)
         if v.tag == "tuple":
             return list(v.items)
         if v.tag in ("list", "set"):
@@ -1299,6 +1322,16 @@ class Interp:
             nm = n.func.id
             if nm == "old":
                 return self.eval_old(n.args[0])
+            if nm == "old_iter":
+                # value at the start of the loop iteration being checked (loop body clauses)
+                if self.iter_old_heap is None:
+                    raise SpecError("old_iter() outside a loop body clause")
+                saved, saved_old = self.heap, self.old_heap
+                self.heap = self.iter_old_heap
+                try:
+                    return self.eval(n.args[0])
+                finally:
+                    self.heap, self.old_heap = saved, saved_old
             if nm == "implies":
                 a = self.truth(self.eval(n.args[0]))
                 if z3.is_false(z3.simplify(a)):
@@ -2027,6 +2060,26 @@ class Interp:
                           extra_inv=lambda: z3.And(self.force(self.env[tname]).t >= lo,
                                                    z3.Or(self.force(self.env[tname]).t <= hi, hi < lo)))
             return
+        if it.tag == "str" and not z3.is_string_value(it.t):
+            if spec is None:
+                raise Unsupported("for loop %d (line %d) over a symbolic string needs an invariant" % (k, s.lineno))
+            idx = spec.index or "_k"
+            self.env[idx] = VInt(0)
+            sterm, isb = it.t, it.is_bytes
+
+            def cond():
+                return self.force(self.env[idx]).t < z3.Length(sterm)
+
+            def pre_body():
+                ch = z3.SubString(sterm, self.force(self.env[idx]).t, 1)
+                self.assign(s.target, VInt(z3.StrToCode(ch)) if isb else VStr(ch))
+
+            def post_body():
+                self.env[idx] = VInt(self.force(self.env[idx]).t + 1)
+            self.inv_loop(s, k, spec, cond=cond, pre_body=pre_body, post_body=post_body, extra_havoc=[idx],
+                          extra_inv=lambda: z3.And(self.force(self.env[idx]).t >= 0,
+                                                   self.force(self.env[idx]).t <= z3.Length(sterm)))
+            return
         if it.tag == "list":
             c = self.container(it.ref)
             if isinstance(c, LSeq):
@@ -2048,7 +2101,8 @@ class Interp:
                 def post_body():
                     self.env[idx] = VInt(self.force(self.env[idx]).t + 1)
                 self.inv_loop(s, k, spec, cond=cond, pre_body=pre_body, post_body=post_body, extra_havoc=[idx],
-                              extra_inv=lambda: self.force(self.env[idx]).t >= 0)
+                              extra_inv=lambda: z3.And(self.force(self.env[idx]).t >= 0, self.force(self.env[idx]).t <=
+                                                       z3.Length(self.container(ref).term)))
                 return
         # CPython iterates a list by index and re-reads it at every step: deleting from the list inside the
         # loop makes the iterator skip the next element.  Model that for concrete-length lists.
@@ -2097,10 +2151,13 @@ class Interp:
         fc = self.frames[-1].fc
         fname = self.frames[0].fc.key
 
+        invs = [(x[1] if isinstance(x, tuple) else x) for x in spec.invariant]
+        inv_labels = [(x[0] if isinstance(x, tuple) else "inv[%d]" % i) for i, x in enumerate(spec.invariant)]
+
         def check_inv(when):
-            for i, inv in enumerate(spec.invariant):
+            for i, inv in enumerate(invs):
                 f = self.spec_bool(inv)
-                self.ctx.prove("%s:loop%d.inv[%d].%s" % (fname, k, i, when), _ctext(inv), f,
+                self.ctx.prove("%s:loop%d.%s.%s" % (fname, k, inv_labels[i], when), _ctext(inv), f,
                                info={"kind": "loop-invariant", "when": when, "line": s.lineno})
 
         def assume_inv():
@@ -2108,7 +2165,7 @@ class Interp:
                 self.ctx.assume(extra_inv())
             for d in spec.assume:
                 self.ctx.assume(self.spec_bool(d))
-            for inv in spec.invariant:
+            for inv in invs:
                 self.ctx.assume(self.spec_bool(inv))
         for d in spec.assume:
             self.ctx.assume(self.spec_bool(d))
@@ -2127,6 +2184,9 @@ class Interp:
         if which == 0:
             # arbitrary iteration
             self.ctx.assume(cond())
+            iter_trace_start = len(self.trace)
+            iter_snap = self.heap.snapshot()
+            self.snapshots.append(iter_snap)
             dec0 = self.spec_val(spec.decreases) if spec.decreases else None
             if pre_body:
                 pre_body()
@@ -2140,6 +2200,18 @@ class Interp:
                 post_body()
             for d in spec.assume:
                 self.ctx.assume(self.spec_bool(d))
+            if spec.body_ensures:
+                saved_tb = self.trace_base
+                self.trace_base = iter_trace_start
+                self.iter_old_heap = iter_snap
+                try:
+                    for i, cl in enumerate(spec.body_ensures):
+                        lab, text = cl if isinstance(cl, tuple) else ("body[%d]" % i, cl)
+                        self.ctx.prove("%s:loop%d.%s" % (fname, k, lab), _ctext(text), self.spec_bool(text),
+                                       info={"kind": "loop-body", "line": s.lineno})
+                finally:
+                    self.trace_base = saved_tb
+                    self.iter_old_heap = None
             check_inv("preserved")
             if dec0 is not None:
                 dec1 = self.spec_val(spec.decreases)
